@@ -782,6 +782,7 @@ struct Opts {
   jobs: usize,
   lo: usize,
   hi: usize,
+  atomics: bool,
 }
 
 fn parse_opts(args: &[String]) -> Opts {
@@ -794,6 +795,7 @@ fn parse_opts(args: &[String]) -> Opts {
     jobs: std::thread::available_parallelism().map(|n| n.get()).unwrap_or(4),
     lo: 0,
     hi: usize::MAX,
+    atomics: false,
   };
   let mut i = 1;
   while i < args.len() {
@@ -805,6 +807,11 @@ fn parse_opts(args: &[String]) -> Opts {
       "--flavours" => o.flavours = val(i).split(',').filter(|s| !s.is_empty()).map(|s| s.to_string()).collect(),
       "--mode" => o.mode = val(i),
       "--jobs" => o.jobs = val(i).parse().unwrap_or(1),
+      "--atomics" => {
+        o.atomics = true;
+        i += 1;
+        continue;
+      }
       "--lo" => o.lo = val(i).parse().unwrap_or(0),
       "--hi" => o.hi = val(i).parse().unwrap_or(usize::MAX),
       x => {
@@ -862,6 +869,8 @@ pub fn make_case(seed: u64, idx: usize, mode: &str, tier: &str, flavours: &[Stri
     programs,
     schedule: None,
     budget: 20_000,
+    prefer: Vec::new(),
+    atomics: false,
   }
 }
 
@@ -873,7 +882,8 @@ pub fn main(args: &[String]) {
     let mut lock = std::io::BufWriter::new(stdout.lock());
     let hi = o.hi.min(o.cases);
     for i in o.lo..hi {
-      let c = make_case(o.seed, i, &o.mode, &o.tier, &o.flavours);
+      let mut c = make_case(o.seed, i, &o.mode, &o.tier, &o.flavours);
+      c.atomics = o.atomics;
       let _ = lock.write_all(crate::run_and_render(&c).as_bytes());
     }
     let _ = lock.flush();
@@ -893,6 +903,7 @@ pub fn main(args: &[String]) {
       .arg("worker")
       .args(["--seed", &o.seed.to_string(), "--cases", &o.cases.to_string(), "--tier", &o.tier, "--mode", &o.mode])
       .args(["--flavours", &o.flavours.join(","), "--lo", &lo.to_string(), "--hi", &hi.to_string()])
+      .args(if o.atomics { vec!["--atomics"] } else { vec![] })
       .stdout(Stdio::piped())
       .stderr(Stdio::inherit())
       .spawn()
@@ -965,6 +976,8 @@ pub fn demo() {
       programs,
       schedule: None,
       budget: 20_000,
+      prefer: Vec::new(),
+      atomics: false,
     };
     let _ = lock.write_all(crate::run_and_render(&c).as_bytes());
   }
